@@ -180,7 +180,7 @@ class SimpleListWalker(MonitoredList[_T], ListWalker):
     def set_focus(self, position: int) -> None:
         """Set focus position."""
 
-        if not 0 <= position < len(self):
+        if not isinstance(position, int) or not 0 <= position < len(self):
             raise IndexError(f"No widget at position {position}")
 
         self.focus = position
